@@ -76,7 +76,13 @@ def make_body(n, quat, normal_mode, cls_name, placed, planar=True):
         poly = cls(H.arr(pts), **kw)
         nrm = [poly.normal[k] for k in range(3)]
         verts = [[poly.vertices[i][k] for k in range(3)] for i in range(n)]
-        # normal is +-nz
+        # "about its normal": an explicit normal is the normal of the polygon (nz is a unit vector)
+        if normal_mode in ("plus", "minus"):
+            H.claim_all_eq("normal=requested", nrm, kw["normal"])
+        else:
+            H.claim_eq("normal_is_unit", O.dot(nrm, nrm), 1)
+        if cls_name == "Polygon":
+            H.claim_all_eq("vertices_stored_as_given", verts, pts)
         m = O.polygon_measures(verts, nrm)
         A = m["A"]
         H.claim_eq("signed_area", poly.signed_area, A)
